@@ -1,4 +1,6 @@
+use std::collections::HashMap;
 use std::fs;
+use std::sync::Arc;
 
 use async_lsp::lsp_types::Url;
 
@@ -8,6 +10,8 @@ use ide::file_system::{FileId, FilePath, FileSet, FileSystem};
 pub struct Vfs {
     file_set: FileSet,
     next_file_id: u32,
+    /// text of the documents the editor has open; it takes precedence over the disk
+    open_files: HashMap<FilePath, Arc<str>>,
 }
 
 impl Vfs {
@@ -17,6 +21,10 @@ impl Vfs {
 
     pub fn file_for_path(&self, path: &FilePath) -> Option<FileId> {
         self.file_set.file_for_path(path)
+    }
+
+    pub fn set_open_file_content(&mut self, path: FilePath, text: Arc<str>) {
+        self.open_files.insert(path, text);
     }
 
     fn alloc_file_id(&mut self) -> FileId {
@@ -44,6 +52,10 @@ impl FileSystem for Vfs {
     }
 
     fn read_content(&self, file_path: &FilePath) -> Option<String> {
+        if let Some(text) = self.open_files.get(file_path) {
+            return Some(text.to_string());
+        }
+
         let Ok(content) = fs::read_to_string(&file_path.0) else {
             tracing::info!("failed to read file: file_path={file_path:?}");
             return None;
